@@ -24,9 +24,15 @@ def _ns_ensures(a, r):
     ns = S.py_bound(a.index.start, L, 0)
     ne = S.py_bound(a.index.stop, L, L)
     cs, ce = S.clip(r.start, L), S.clip(r.stop, L)
-    return [("post.slice.nonneg", And(r.start >= 0, r.stop >= 0)),
-            ("post.slice.range", If(ne > ns, And(cs == ns, ce == ne), ce <= cs)),
-            ("post.slice.step", r.step is None)]
+    out = [("post.slice.nonneg", And(r.start >= 0, r.stop >= 0)),
+           ("post.slice.range", If(ne > ns, And(cs == ns, ce == ne), ce <= cs)),
+           ("post.slice.step", r.step is None)]
+    # helper clauses for callers (derived from the code): a bound that is already a non-negative int is returned unchanged
+    if a.index.start is not None:
+        out.append(("post.slice.start_kept", Implies(a.index.start >= 0, r.start == a.index.start)))
+    if a.index.stop is not None:
+        out.append(("post.slice.stop_kept", Implies(a.index.stop >= 0, r.stop == a.index.stop)))
+    return out
 
 
 def _ns_result(a, st):
@@ -352,7 +358,7 @@ join = Contract(
 
 
 # ---------------------------------------------------------------------------------------------
-# Chunk.width (callee form): wcswidth of the run's text; ValueError when a non-empty run has width < 1
+# Chunk.width (callee form): wcswidth of the run's text; ValueError when a non-empty run has no width (wcswidth < 0)
 # (cwcwidth.wcswidth is an ASSUMED external: WCS).  Body verified in C10.
 # ---------------------------------------------------------------------------------------------
 def _cw_result(a, st):
@@ -361,7 +367,7 @@ def _cw_result(a, st):
 
 
 chunk_width = Contract(M + "Chunk.width", "C10", ["self"], kind="property", shapes=[], result=_cw_result,
-                       raises={"ValueError": lambda a: And(z3.Length(T.ChunkS.s(a.self)) > 0, T.WCS(T.ChunkS.s(a.self)) < 1)})
+                       raises={"ValueError": lambda a: And(z3.Length(T.ChunkS.s(a.self)) > 0, T.WCS(T.ChunkS.s(a.self)) < 0)})
 
 # Chunk.__str__ (callee form): the run's terminal string COLORSTR(chunk); body (color_str) decided in C01
 from pyvc.loops import COLORSTR, STRFOLD
